@@ -93,7 +93,7 @@ func runC03(w *World, r *Report, tier string) {
 	}
 	order := map[string]int{"init": 0, "starttls": 1, "reset-tls": 3, "auth": 4, "reset-auth": 5, "resume": 6, "bind": 7, "session": 8, "enable": 9}
 	var resumeCall *ssa.Call
-	for _, c := range w.callsIn(ns, "xmpp.Session.resume") {
+	for _, c := range w.callsInH(ns, "xmpp.Session.resume") {
 		resumeCall, _ = c.(*ssa.Call)
 	}
 	badOrder, badPresence := "", ""
@@ -178,15 +178,15 @@ func runC03(w *World, r *Report, tier string) {
 	}
 	for _, k := range []string{"xmpp.(*Session).startTlsIfSupported", "xmpp.(*Session).bind", "xmpp.(*Session).rfc3921Session", "xmpp.(*Session).EnableStreamManagement", "xmpp.(*Session).resume", "xmpp.authPlain"} {
 		fn := w.Func(k)
-		reads := w.callsIn(fn, readKeys...)
+		reads := w.callsInH(fn, readKeys...)
 		isW := w.isCallTo(writeKeys...)
 		if len(reads) == 0 {
 			r.Undecided("R1", k+"#write-before-read", w.pos(fn.Pos()), "the step reads no reply")
 			continue
 		}
 		for i, rd := range reads {
-			ok, wit := mustPass(entryLoc(fn), func(in ssa.Instruction) bool { return in == rd.(ssa.Instruction) }, isW, nil)
-			r.Check(ok, "R1", fmt.Sprintf("%s#write-before-read#%d", k, i+1), w.ipos(rd), "a reply is read without the request having been written: "+pathString(w, wit), "request write dominates the reply read")
+			ok, why := allPathsPass(fn, rd.(ssa.Instruction), isW)
+			r.Check(ok, "R1", fmt.Sprintf("%s#write-before-read#%d", k, i+1), w.ipos(rd), "a reply can be read without the request having been written "+why, "the request is written on every path to the reply read")
 		}
 	}
 
@@ -222,7 +222,7 @@ func runC03(w *World, r *Report, tier string) {
 		}
 		r.Check(okAlways && len(optFalse) > 0, "R1b", "xmpp.(*Session).rfc3921Session#mandatory-is-sent", w.pos(se.Pos()), "a mandatory legacy session can be skipped silently", "on the mandatory edge every path writes the request or records an error")
 		// the IsOptional receiver is the session feature of the current stream
-		for _, c := range w.callsIn(se, "stanza.StreamSession.IsOptional") {
+		for _, c := range w.callsInH(se, "stanza.StreamSession.IsOptional") {
 			r.Check(strings.HasSuffix(fieldNames(fieldPath(c.Common().Args[0])), "Features.Session"), "R1b", "xmpp.(*Session).rfc3921Session#feature", w.ipos(c), "IsOptional is not asked of the current stream's session feature", "s.Features.Session.IsOptional()")
 		}
 
@@ -255,7 +255,7 @@ func runC03(w *World, r *Report, tier string) {
 	})
 	mayStoreErr := w.mayStoreClosure(fErr)
 	for _, key := range []string{"xmpp.Session.reset", "xmpp.Session.resume"} {
-		for i, c := range w.callsIn(ns, key) {
+		for i, c := range w.callsInH(ns, key) {
 			cons := fmt.Sprintf("xmpp.NewSession→%s#%d", strings.TrimPrefix(key, "xmpp.Session."), i+1)
 			in := c.(ssa.Instruction)
 			// (a) an err==nil edge dominates the call, with no err-storing call between the edge and the call
@@ -334,11 +334,11 @@ func runC03(w *World, r *Report, tier string) {
 				continue
 			}
 			n4++
-			fk := w.funcKey(f)
+			fk := w.ownerKey(f)
 			cons := fk + "→updateState(StateSessionEstablished)"
 			switch fk {
 			case "xmpp.(*Client).connect":
-				nsc := w.callsIn(f, "xmpp.NewSession")
+				nsc := w.callsInH(f, "xmpp.NewSession")
 				okDom := false
 				if len(nsc) == 1 {
 					ev := errResult(nsc[0].(*ssa.Call))
@@ -368,7 +368,7 @@ func runC03(w *World, r *Report, tier string) {
 	}
 	// teardown on failure: connect calls Disconnect on the NewSession error path and returns the error
 	conn := w.Func("xmpp.(*Client).connect")
-	if nsc := w.callsIn(conn, "xmpp.NewSession"); len(nsc) == 1 {
+	if nsc := w.callsInH(conn, "xmpp.NewSession"); len(nsc) == 1 {
 		ev := errResult(nsc[0].(*ssa.Call))
 		bad := ""
 		n := 0
@@ -462,7 +462,7 @@ func c03Replies(w *World, r *Report, fErr *types.Var) {
 	readKeys := []string{"encoding/xml.Decoder.Decode", "encoding/xml.Decoder.DecodeElement", "stanza.NextPacket"}
 	// helper: enumerate success paths after the (single) reply read of fn
 	successPaths := func(fn *ssa.Function, visit func(rd *ssa.Call, path []ssa.Instruction)) (int, string) {
-		reads := w.callsIn(fn, readKeys...)
+		reads := w.callsInH(fn, readKeys...)
 		if len(reads) != 1 {
 			return 0, fmt.Sprintf("expected one reply read, found %d", len(reads))
 		}
@@ -541,7 +541,7 @@ func c03Replies(w *World, r *Report, fErr *types.Var) {
 	// STARTTLS
 	{
 		fn := w.Func("xmpp.(*Session).startTlsIfSupported")
-		reads := w.callsIn(fn, readKeys...)
+		reads := w.callsInH(fn, readKeys...)
 		if len(reads) != 1 {
 			r.Undecided("R3", "xmpp.(*Session).startTlsIfSupported#reply", w.pos(fn.Pos()), "expected one reply read")
 		} else {
@@ -621,7 +621,7 @@ func c03Replies(w *World, r *Report, fErr *types.Var) {
 	// features: extractStreamFeatures records the decode error
 	{
 		fn := w.Func("xmpp.(*Session).extractStreamFeatures")
-		reads := w.callsIn(fn, readKeys...)
+		reads := w.callsInH(fn, readKeys...)
 		ok := len(reads) == 1
 		if ok {
 			rd := reads[0].(*ssa.Call)
